@@ -60,6 +60,14 @@ ENVELOPE_IDS = ('ISA', 'IEA', 'GS', 'GE', 'ST', 'SE', 'HL', 'LX', 'CLM')
 def gen_isa(rng, icvn, seg_term, ele_term, sub_term, rep, ctl):
     f = ['00', ' ' * 10, '00', ' ' * 10, 'ZZ', 'SENDER'.ljust(15), 'ZZ', 'RECEIVER'.ljust(15),
          '040102', '1230', rep if icvn == '00501' else 'U', icvn, '%09d' % ctl, '0', 'P', sub_term]
+    if rng.random() < 0.3:
+        # the ISA is never split at the component separator: put it (and the repetition character) inside ISA fields
+        for k in rng.sample([1, 3, 5, 7], rng.choice([1, 2])):
+            w = len(f[k])
+            v = ''.join(rng.choice('AB9 ' + sub_term + (rep if rep not in (seg_term, ele_term) else '')) for _ in range(w))
+            if rng.random() < 0.4:
+                v = v[:-1] + sub_term
+            f[k] = v
     return 'ISA' + ele_term + ele_term.join(f) + seg_term
 
 
